@@ -208,7 +208,10 @@ def slot_impl(content, flag: bool, repass: List[bool]) -> str:
         c = lambda ctx, data, ref: txt  # noqa: E731
     else:
         txt = mark_safe(content[1]) if content[2] else content[1]
-        c = Slot(lambda ctx, data, ref: txt)
+        # a Slot the user built, possibly with the tracing names the library itself sets on the slots it normalises
+        names = {"slot": {}, "slot+names": {"component_name": "card", "slot_name": "x"}, "slot+cname": {"component_name": "card"},
+                 "slot+sname": {"slot_name": "x"}}[kind]
+        c = Slot(lambda ctx, data, ref: txt, **names)
     out = _Outer.render(kwargs={"flags": repass}, slots={"x": c}, escape_slots_content=flag, render_dependencies=False)
     import re
 
@@ -297,7 +300,8 @@ def run(tier: str) -> int:
     # --- slots
     contents = []
     for txt in ["<b>x</b>", "a & b", "\"q\"", "plain", "&amp;"]:
-        contents += [["plain", txt], ["safe", txt], ["fn", txt, False], ["fn", txt, True], ["slot", txt, False], ["slot", txt, True]]
+        contents += [["plain", txt], ["safe", txt], ["fn", txt, False], ["fn", txt, True], ["slot", txt, False], ["slot", txt, True],
+                     ["slot+names", txt, False], ["slot+names", txt, True], ["slot+cname", txt, False], ["slot+sname", txt, False]]
     scases = []
     for c in contents:
         for flag in (True, False):
@@ -305,12 +309,14 @@ def run(tier: str) -> int:
                 scases.append((c, flag, re_))
     if tier == "quick":
         rr = core.rng(PROP, "slot")
-        scases = rr.sample(scases, 150)
-    sreps = core.drive([{"op": "slotesc", "content": c, "flag": f, "repass": r_} for c, f, r_ in scases])
+        scases = rr.sample(scases, 220)
+    # for the model a Slot is a Slot: the names are tracing metadata and decide nothing
+    sreps = core.drive([{"op": "slotesc", "content": (["slot"] + c[1:] if c[0].startswith("slot+") else c), "flag": f, "repass": r_}
+                        for c, f, r_ in scases])
     for (c, f, r_), rep in zip(scases, sreps):
         ch.count("slot", 1, 1)
         out = slot_impl(c, f, r_)
-        plain_like = c[0] == "plain" or (c[0] in ("fn", "slot") and not c[2])
+        plain_like = c[0] == "plain" or ((c[0] == "fn" or c[0].startswith("slot")) and not c[2])
         exp = "[" + (html.escape(c[1]) if (plain_like and f) else c[1]) + "]"
         shown = {"content": c, "escape_slots_content": f, "repass_flags": r_}
         ch.nontrivial(("slot", str(shown)))
@@ -421,7 +427,7 @@ def run(tier: str) -> int:
     ch.cov["rule"] = (
         f"{n} html_attrs cases (0-3 defaults, 0-3 attrs, 0-3 keywords incl. repeats; names from {len(NAMES_OK)} valid + every 6th case "
         f"{len(NAMES_BAD)} invalid names; values built from {len(VALUE_TEXT)} text pieces, numbers, bool, None, SafeString; positional / "
-        "keyword / aggregate passing) parsed back with html.parser; slot contents {plain, safe, fn->str, fn->safe, Slot->str, Slot->safe} "
+        "keyword / aggregate passing) parsed back with html.parser; slot contents {plain, safe, fn->str, fn->safe, Slot->str, Slot->safe, Slot with component_name / slot_name set} "
         "x 5 texts x flag x 6 re-pass patterns; guard: all letter-case variants of </script / </style plus look-alikes; tokenizer: random "
         "attribute strings; non-trivial = >= 2 keys (attrs), every slot case, every must-refuse guard case; distinct by content"
     )
